@@ -572,7 +572,9 @@ class FnRewriter:
                 self.rule("R9")
 
     def replace_calls(self):
-        for pat, rep in self.opts.get("replace", []):
+        for ent in self.opts.get("replace", []):
+            pat, rep = ent[0], ent[1]
+            optional = len(ent) > 2 and ent[2]
             pt = [x.text for x in tokenize(pat)]
             bo, bc = self.body_range()
             hit = 0
@@ -582,7 +584,7 @@ class FnRewriter:
                     hit += 1
                     self.edit(self.toks[i].start, self.toks[i + len(pt) - 1].end, rep, "R11")
                     self.rule("R11")
-            if hit == 0:
+            if hit == 0 and not optional:
                 raise ExtractError("lost anchor: `%s` in %s" % (pat, self.name))
 
     def r11_anyhow(self):
@@ -1061,6 +1063,11 @@ class Assembler:
                             cur = None
                         elif c2 == "replace-call":
                             opts["replace"].append((p2[1], p2[3]))
+                            cur = None
+                        elif c2 == "replace-call-opt":
+                            # applied where the form occurs; its absence is not a lost anchor (if the unrewritten form is
+                            # still present in some other shape Verus rejects the file: exit 2)
+                            opts["replace"].append((p2[1], p2[3], True))
                             cur = None
                         else:
                             raise ExtractError("template: unknown sub-directive %s (%s:%d)" % (c2, tpl_path, j + 1))
